@@ -49,7 +49,7 @@ def run(ctx):
         raise AnalysisError("no release site found", "Scheduler._release_resources")
     r1.floor = 1
 
-    r2 = ctx.rule("C09.2", "every lifecycle path hands the job on or finalises it; stopping without continuation only under dry-run", floor=8)
+    r2 = ctx.rule("C09.2", "every lifecycle path hands the job on or finalises it; stopping without continuation only under dry-run", floor=4)
     results = lc.explore()
     ctx.paths_enumerated = len(results)
     seen = set()
@@ -105,7 +105,7 @@ def run(ctx):
                         describe_trace(trace[: i + 1]),
                     )
     if n5 == 0:
-        raise AnalysisError("no re-nomination trace found", "lifecycle")
+        r5.violation(f"{m.rel}:{lc.EXEC}:no-wait-queue-path", "no lifecycle trace queues a job that does not fit within the limits and re-enters later: over-limit jobs are dropped or run regardless", m.rel, lc.handlers[lc.EXEC].fn.lineno)
     if not seen5:
         r5.good(f"{m.rel}:{lc.EXEC}:re-nominated-exits", f"{n5} re-entry steps consume, re-queue or wake")
         r5.good(f"{m.rel}:{lc.EXEC}:re-nominated-exits:traces")
